@@ -16,6 +16,55 @@ func Shape(v ssa.Value) string {
 	return shape(v, 0, map[ssa.Value]bool{})
 }
 
+// canonKey in the seen-set switches on canonical rendering: operands of commutative operators are sorted,
+// `a <= b` is rendered `b >= a` and `a > b` as `b < a`, and the position of a range-over-slice loop is
+// rendered idx(<slice>).
+var canonKey ssa.Value = &ssa.Const{}
+
+// ShapeCanon is Shape with commutative operands sorted, comparisons oriented and range positions named.
+func ShapeCanon(v ssa.Value) string {
+	return shape(v, 0, map[ssa.Value]bool{canonKey: true})
+}
+
+// RangeIndexOf recognises go/ssa's lowering of `for i := range s` (i = phi(-1, i+1); the body uses i+1;
+// the loop runs while i+1 < len(s)) and returns s.
+func RangeIndexOf(v ssa.Value) (ssa.Value, bool) {
+	bo, ok := v.(*ssa.BinOp)
+	if !ok || bo.Op != token.ADD {
+		return nil, false
+	}
+	if k, isK := constInt(bo.Y); !isK || k != 1 {
+		return nil, false
+	}
+	phi, ok := bo.X.(*ssa.Phi)
+	if !ok {
+		return nil, false
+	}
+	back := false
+	for _, e := range phi.Edges {
+		if e == ssa.Value(bo) {
+			back = true
+		} else if k, isK := constInt(e); !isK || k != -1 {
+			return nil, false
+		}
+	}
+	if !back {
+		return nil, false
+	}
+	for _, ref := range *bo.Referrers() {
+		cmp, ok := ref.(*ssa.BinOp)
+		if !ok || cmp.Op != token.LSS || cmp.X != ssa.Value(bo) || cmp.Block() != phi.Block() {
+			continue
+		}
+		if c, ok := cmp.Y.(*ssa.Call); ok {
+			if b, isB := c.Call.Value.(*ssa.Builtin); isB && b.Name() == "len" && len(c.Call.Args) == 1 {
+				return c.Call.Args[0], true
+			}
+		}
+	}
+	return nil, false
+}
+
 func shapeType(t types.Type) string {
 	return types.TypeString(t, func(p *types.Package) string { return "" })
 }
@@ -39,6 +88,26 @@ func shape(v ssa.Value, depth int, seen map[ssa.Value]bool) string {
 	case *ssa.Builtin:
 		return x.Name()
 	case *ssa.BinOp:
+		if seen[canonKey] {
+			if s, ok := RangeIndexOf(x); ok {
+				return "idx(" + shape(s, depth+1, seen) + ")"
+			}
+			a, b, op := shape(x.X, depth+1, seen), shape(x.Y, depth+1, seen), x.Op
+			switch op {
+			case token.ADD, token.MUL, token.EQL, token.NEQ, token.AND, token.OR, token.XOR:
+				if _, isStr := x.X.Type().Underlying().(*types.Basic); isStr && x.X.Type().Underlying().(*types.Basic).Info()&types.IsString != 0 && op == token.ADD {
+					break // string concatenation is not commutative
+				}
+				if b < a {
+					a, b = b, a
+				}
+			case token.LEQ:
+				a, b, op = b, a, token.GEQ
+			case token.GTR:
+				a, b, op = b, a, token.LSS
+			}
+			return "(" + a + " " + op.String() + " " + b + ")"
+		}
 		return "(" + shape(x.X, depth+1, seen) + " " + x.Op.String() + " " + shape(x.Y, depth+1, seen) + ")"
 	case *ssa.UnOp:
 		switch x.Op {
@@ -115,6 +184,8 @@ func shape(v ssa.Value, depth int, seen map[ssa.Value]bool) string {
 		return "φ{" + strings.Join(ks, " | ") + "}"
 	case *ssa.Alloc:
 		return "@" + shapeLoad(x, depth, seen)
+	case *ssa.MakeMap:
+		return "make(" + shapeType(x.Type()) + ")"
 	case *ssa.MakeSlice:
 		return "make(" + shapeType(x.Type()) + "," + shape(x.Len, depth+1, seen) + ")"
 	case *ssa.Next:
